@@ -170,6 +170,82 @@ func identityFormsUnit() harness.Unit {
 	}}
 }
 
+// shortXUnit: peer ephemeral points whose x coordinate is SHORT - around 2^127 and 2^128 (x~ keeps the
+// low 127 bits and sets bit 127: the boundary of that rule), 2^64, 2^8, and full-size controls. Such
+// points are constructed from x (y is a square root of the curve equation), so nobody knows their
+// discrete logarithm: the party under test is checked one-sidedly against the reference, in both
+// roles and for its own keys from the alphabet.
+func shortXUnit() harness.Unit {
+	return harness.Unit{Name: "peer-ephemeral-with-short-x", Run: func(c *harness.Ctx) {
+		keys := sm2k.Alphabet()
+		id := []byte("1234567812345678")
+		var pts []refsm2.Point
+		for _, e := range []uint{8, 64, 126, 127, 128, 129, 200} {
+			for _, delta := range []int64{-1, 0} {
+				found := 0
+				x := new(big.Int).Lsh(big.NewInt(1), e)
+				if delta < 0 {
+					x.Sub(x, big.NewInt(1))
+				}
+				for tries := 0; tries < 400 && found < 2; tries++ {
+					rhs := new(big.Int).Exp(x, big.NewInt(3), refsm2.P)
+					rhs.Add(rhs, new(big.Int).Mul(refsm2.A, x))
+					rhs.Add(rhs, refsm2.B)
+					rhs.Mod(rhs, refsm2.P)
+					if y := new(big.Int).ModSqrt(rhs, refsm2.P); y != nil {
+						pts = append(pts, refsm2.Point{X: new(big.Int).Set(x), Y: y})
+						found++
+					}
+					if delta < 0 {
+						x.Sub(x, big.NewInt(1))
+					} else {
+						x.Add(x, big.NewInt(1))
+					}
+				}
+			}
+		}
+		for pi, R := range pts {
+			if !refsm2.OnCurve(R.X, R.Y) {
+				c.Note("constructed point %d is not on the curve", pi)
+				c.Add("harness_divergences", 1)
+				continue
+			}
+			self := party{keys[(pi+5)%len(keys)].D, keys[(pi+5)%len(keys)].Pub}
+			peer := party{keys[(pi+8)%len(keys)].D, keys[(pi+8)%len(keys)].Pub}
+			rSelf := party{keys[(pi+6)%len(keys)].D, keys[(pi+6)%len(keys)].Pub}
+			for _, asA := range []bool{true, false} {
+				tag := fmt.Sprintf("peer ephemeral x = %x (%d bits), party under test is initiator=%v", R.X, R.X.BitLen(), asA)
+				c.Add("evaluations", 1)
+				c.DistinctS("nontrivial", tag)
+				ref, err := refsm2.KeyExchange(16, id, id, self.d, self.p, peer.p, rSelf.d, rSelf.p, R, asA)
+				if err != nil {
+					continue
+				}
+				var k, s1, s2 []byte
+				var kerr error
+				Rpub := &sm2.PublicKey{Curve: sm2.P256Sm2(), X: R.X, Y: R.Y}
+				if c.Guard("kx-panic:short-x", tag, nil, func() {
+					if asA {
+						k, s1, s2, kerr = sm2.KeyExchangeA(16, id, id, libKey(self.d, self.p), &libKey(peer.d, peer.p).PublicKey, libKey(rSelf.d, rSelf.p), Rpub)
+					} else {
+						k, s1, s2, kerr = sm2.KeyExchangeB(16, id, id, libKey(self.d, self.p), &libKey(peer.d, peer.p).PublicKey, libKey(rSelf.d, rSelf.p), Rpub)
+					}
+				}) {
+					continue
+				}
+				if kerr != nil {
+					c.Violate("kx-error:short-x", fmt.Sprintf("[%s] %v", tag, kerr), nil, nil)
+					continue
+				}
+				if !bytes.Equal(k, ref.K) || !bytes.Equal(s1, ref.S1) || !bytes.Equal(s2, ref.S2) {
+					c.Violate(fmt.Sprintf("kx-vs-standard:peer-ephemeral-x-%d-bits", R.X.BitLen()), fmt.Sprintf("[%s] K=%x S1=%x S2=%x, GM/T 0003.3 prescribes K=%x S1=%x S2=%x", tag, k, s1, s2, ref.K, ref.S1, ref.S2), nil, nil)
+				}
+			}
+		}
+		c.Sample(fmt.Sprintf("%d constructed peer ephemeral points with x just below / at 2^8, 2^64, 2^126..2^129, 2^200, both roles", len(pts)))
+	}}
+}
+
 func productUnit(ai int, tier string) harness.Unit {
 	return harness.Unit{Name: fmt.Sprintf("product/keyA=%d", ai), Run: func(c *harness.Ctx) {
 		keys := sm2k.Alphabet()
@@ -384,7 +460,7 @@ var Prop = &harness.Prop{
 		return "all 12x12x12 (A,B,ephemeral-index) combinations with key and identity lengths rotated pairwise" + map[bool]string{true: "; full product of 15 key lengths x 5 x 5 identity lengths on 4 key combinations", false: ""}[tier == "thorough"]
 	},
 	Units: func(tier string) []harness.Unit {
-		u := []harness.Unit{exampleUnit(), shortVUnit(), rejectUnit(), coincidenceUnit(), identityFormsUnit()}
+		u := []harness.Unit{exampleUnit(), shortVUnit(), rejectUnit(), coincidenceUnit(), identityFormsUnit(), shortXUnit()}
 		for i := range sm2k.Alphabet() {
 			u = append(u, productUnit(i, tier))
 		}
